@@ -2,7 +2,7 @@
  *
  * Job file, one execution per line (whitespace separated, no spaces inside fields):
  *   exec <gtfile|-> <archive> <stream> <policy> <xdir|-> <failk> <flags> <ops>
- *     stream : path | FILE | pipe | drip | cb | cbns      (how the input stream is built)
+ *     stream : path | FILE | pipe | drip | cb | cbk | cbns      (how the input stream is built)
  *     policy : plain | eod | eof | default          (default: do not call set_dir_policy)
  *     xdir   : directory to chdir into for extraction ("-": stay)
  *     failk  : fail the k-th allocation made inside library calls (0: none)
@@ -73,9 +73,21 @@ static int cb_skip(void *h, size_t n)
 	apos += n;
 	return 1;
 }
+/* a skip callback that refuses to go past the end of the input and then leaves the position where it was (cb_skip moves to the end):
+   both are what a caller's callback may do */
+static int cb_skip_keep(void *h, size_t n)
+{
+	(void) h;
+	src_calls++; budget();
+	if (err_after > 0 && (long) src_calls > err_after) return 0;
+	if (alen - apos < n) return 0;
+	apos += n;
+	return 1;
+}
 static void cb_close(void *h) { (void) h; }
 static LHAInputStreamType cbt = { cb_read, cb_skip, cb_close };
 static LHAInputStreamType cbt_ns = { cb_read, NULL, cb_close };
+static LHAInputStreamType cbt_keep = { cb_read, cb_skip_keep, cb_close };
 
 /* ---------- projection ---------- */
 static const char *ctn[] = { "START", "NORMAL", "FAKE", "DEFER", "EOF" };
@@ -169,6 +181,7 @@ int main(int argc, char **argv)
 		else if (!strcmp(skind, "pipe")) { char cmd[4200]; snprintf(cmd, sizeof cmd, "cat '%s'", arc); fh = popen(cmd, "r"); is_popen = 1; LIB(st = lha_input_stream_from_FILE(fh)); }
 		/* drip: a pipe whose writer hands over 7 bytes at a time, so that the operating system's reads come back short */
 		else if (!strcmp(skind, "drip")) { char cmd[4300]; snprintf(cmd, sizeof cmd, "dd if='%s' bs=7 2>/dev/null", arc); fh = popen(cmd, "r"); is_popen = 1; LIB(st = lha_input_stream_from_FILE(fh)); }
+		else if (!strcmp(skind, "cbk")) LIB(st = lha_input_stream_new(&cbt_keep, NULL));
 		else if (!strcmp(skind, "cb")) LIB(st = lha_input_stream_new(&cbt, NULL));
 		else LIB(st = lha_input_stream_new(&cbt_ns, NULL));
 		LHAReader *r = NULL;
